@@ -73,7 +73,9 @@ def _lind(draw):
             "in_basis": draw(st.booleans()),
             # the superoperator object was calculated before with another dense step; the propagator used for the
             # comparison refused a call (unknown method, refinement argument given) before
-            "recalc_from": draw(st.sampled_from([None, None, 1, 3])), "refused_first": draw(st.booleans())}
+            "recalc_from": draw(st.sampled_from([None, None, 1, 3])), "refused_first": draw(st.booleans()),
+            # the superoperator is calculated (and converted back from the rotating frame) while other units are current
+            "calc_units": draw(st.sampled_from([None, None, None, "1/cm", "eV", "THz"]))}
 
 
 @st.composite
@@ -89,7 +91,9 @@ def _red(draw):
             "in_basis": draw(st.booleans()),
             # the superoperator object was calculated before with another dense step; the propagator used for the
             # comparison refused a call (unknown method, refinement argument given) before
-            "recalc_from": draw(st.sampled_from([None, None, 1, 3])), "refused_first": draw(st.booleans())}
+            "recalc_from": draw(st.sampled_from([None, None, 1, 3])), "refused_first": draw(st.booleans()),
+            # the superoperator is calculated (and converted back from the rotating frame) while other units are current
+            "calc_units": draw(st.sampled_from([None, None, None, "1/cm", "eV", "THz"]))}
 
 
 def strategy(tier):
@@ -279,7 +283,7 @@ def _check_lind(case, ctx):
             eso.set_dense_dt(case["recalc_from"])
             eso.calculate()
         eso.set_dense_dt(dense)
-        eso.calculate()
+        cu(eso.calculate)
         data = numpy.array(eso.data)
         # apply at every grid time
         applied = [numpy.array(eso.apply(float(t), ReducedDensityMatrix(data=rho0.copy())).data) for t in time.data]
@@ -296,9 +300,16 @@ def _check_lind(case, ctx):
         extra = _more_uses(qr, case, eso, time, ham, rho0, nt)
         lab = None
         if rwa is not None:
-            eso.convert_from_RWA()
+            cu(eso.convert_from_RWA)
             lab = numpy.array(eso.data)
         return data, numpy.array(applied), direct, lab, extra
+    def cu(fn):
+        if case.get("calc_units"):
+            with qr.energy_units(case["calc_units"]):
+                return fn()
+        return fn()
+    if case.get("calc_units"):
+        ctx.label("calculated-in-units:" + case["calc_units"])
     ok, r = guarded(ctx, "calculate", run_all, tag)
     if not ok:
         return
@@ -357,7 +368,7 @@ def _check_red(case, ctx):
             eso.set_dense_dt(case["recalc_from"])
             eso.calculate()
         eso.set_dense_dt(dense)
-        eso.calculate()
+        cu(eso.calculate)
         data = numpy.array(eso.data)
         applied = [numpy.array(eso.apply(float(t), ReducedDensityMatrix(data=rho0.copy())).data) for t in time.data]
         time2, ham2, relt2 = make()
@@ -370,6 +381,13 @@ def _check_red(case, ctx):
         rt = prop.propagate(ReducedDensityMatrix(data=rho0.copy()), Nref=dense)
         extra = _more_uses(qr, case, eso, time, ham, rho0, nt)
         return data, numpy.array(applied), numpy.array(rt.data), extra
+    def cu(fn):
+        if case.get("calc_units"):
+            with qr.energy_units(case["calc_units"]):
+                return fn()
+        return fn()
+    if case.get("calc_units"):
+        ctx.label("calculated-in-units:" + case["calc_units"])
     ok, r = guarded(ctx, "calculate", run_all, tag)
     if not ok:
         return
